@@ -299,6 +299,8 @@ def run(ctx):
     # "exactly once" rests on the measurement models' contract "None iff the time is absent from the table" (C06), re-established here
     from props import C06 as _C06
     ctx.guard(_C06._absent, ctx, py)
+    from props import helpers as _helpers_l
+    ctx.guard(_helpers_l.lean_induction, ctx, "C09", ['Pvx.loop_rule', 'Pvx.terminates', 'Pvx.processed_once', 'Pvx.processed_all'])
     # frame of the modules under contract (no state kept between calls, arguments left alone): same analysis as C19
     from props import C19 as _C19
     ctx.guard(_C19.frame_obligations, ctx, py, "C09", {'util', 'filters'})
